@@ -7,17 +7,28 @@ judged on its OUTPUT databox by an independent reference (ref/expr trees evaluat
 Part M (models)  every model of a stated family (all 1- and 2-equation models over
                  6 LHS transforms x identity? x every subset of the RHS term list; a listed
                  3-equation family; a listed "lead" family that only `equations_dates` can
-                 simulate; LHS spellings), with no plan and with a standard plan, both orders.
+                 simulate; LHS spellings `diff(x)`, `diff(x, -1)`, `difflog(x)`), with no plan and
+                 with a standard plan (every non-identity variable exogenized at two dates), both
+                 orders, non-zero residual paths with one missing and one explicit-zero entry.
 Part P (plans)   skeleton models x exogenized variable x EVERY non-empty subset of a 3-period
                  window x 6 plan transforms x when_data in {F,T} x data present on EVERY subset
-                 of the window x {zero, non-zero} input residual at the exogenized variable x
-                 both orders (x 2 variants for a listed part).
+                 of the window (quick: every subset of the exogenized dates) x {zero, non-zero}
+                 input residual at the exogenized variable x both orders (x 2 variants for a listed
+                 part); plus both variables of a 2-equation skeleton exogenized on every pair of
+                 non-empty window subsets.
 
 The reference also simulates the model itself (hand inversion of the six transforms), which
 (i) decides, without looking at the implementation, whether an order computes every value
 before it is read ("read-before-write"; invalid pairs are excluded and counted), (ii) says
 which output cells must be finite, and (iii) gives the expected path (unique for a valid
 order, so comparing with it asserts nothing beyond the statement).
+
+Oracles (check names): equation_holds (transform(lhs) = rhs + residual re-evaluated on the output in
+every simulated period), exogenized_value (plan transform of the output variable = plan data),
+residual_unchanged (cells that are not exogenized, including when_data=True cells without data),
+exogenized_missing_not_nan (when_data=False without data must not be silently simulated),
+nonfinite_output (NaN/inf where the reference is finite), reference_path, orders_agree,
+simulate_exception / build_exception / output_missing_name / output_variants.
 """
 import itertools
 import math
@@ -34,9 +45,10 @@ LEVEL = "exploration"
 RULE = ("Part M: every generated model (LHS transform x identity x subset of RHS terms per equation) x "
         "{no plan, standard plan} x both execution orders; Part P: skeleton x exogenized variable x every "
         "non-empty subset of a 3-period window x plan transform x when_data x every data-presence subset x "
-        "{zero, non-zero} input residual x both orders; a case is distinct by (model text, plan, presence, "
-        "residual mode, order, variants) and non-trivial when the reference says the order is valid and the "
-        "implementation was executed and every cell of the simulated span was judged")
+        "{zero, non-zero} input residual x both orders, and two variables exogenized on every pair of subsets; "
+        "a case is distinct by (model text, plan, presence, residual mode, prepend, order, variants) and "
+        "non-trivial when the reference says the order computes every value before it is read and the "
+        "implementation was executed and judged on the output")
 MANIFEST_ENTRY = dict(
     level="exploration", design="DESIGN.md section 4 / C17",
     technique="exhaustive enumeration of generated sequential models x plans x orders; every equation re-evaluated "
@@ -44,22 +56,27 @@ MANIFEST_ENTRY = dict(
               "with read-before-write analysis",
     text="Every 1- and 2-equation model over 6 LHS transforms (pseudofunction spelling) x identity x every subset of "
          "{own lag, earlier variable, later variable lagged, later variable current, parameter, exogenous} (quick: a "
-         "listed 6 912-model sub-family; thorough: all 73 824), a listed 3-equation family and a lead family, are "
-         "simulated under both execution orders with non-zero residuals, with and without a plan; skeleton models are "
-         "simulated under every plan that exogenizes one variable on every subset of a 3-period window with each of the "
-         "6 plan transforms, when_data on/off, data present on every subset of the window, zero and non-zero input "
-         "residuals, 1 and 2 variants. In every simulated period transform(lhs) = rhs + residual is re-evaluated on the "
-         "output, exogenized variables must equal the implied value, other residuals must be unchanged, and the path "
-         "must equal the reference simulation.",
+         "listed 6 912-model sub-family; thorough: all 73 728 + 202 single-equation models incl. lag 2), a listed "
+         "3-equation family (126 / 4 536) and a 432-model lead family are simulated under both execution orders with "
+         "non-zero residuals, with and without a plan; 24 (quick) / 198 (thorough) skeleton models are simulated under "
+         "every plan that exogenizes one variable on every subset of a 3-period window with each of the 6 plan "
+         "transforms, when_data on/off, data present on every subset, zero and non-zero input residuals, 1 and 2 "
+         "variants, and with both variables exogenized on every pair of subsets (quick 51 540, thorough ~0.9M "
+         "simulations). In every simulated period transform(lhs) = rhs + residual is re-evaluated on the output, "
+         "exogenized variables must equal the implied value, other residuals must be unchanged, and the path must "
+         "equal the reference simulation; order pairs that read a value before it is written are excluded by the "
+         "reference's analysis and counted.",
     note="Trusted: ref/expr.py evaluator and the 40-line reference simulator in this module. Values come from small "
-         "fixed tables (rotated by the seed); longer spans, lags beyond 1, RHS pseudofunctions, custom plan name formats "
-         "and shift= are not covered. Known finding: the exogenized residual is 'needed - input residual'.")
+         "fixed tables (rotated by the seed); spans other than 4 periods, lags beyond 2, RHS pseudofunctions, custom "
+         "plan name formats and shift= are not covered. Known finding: the exogenized residual is 'needed - input "
+         "residual' (equation off by the input residual at exogenized points).")
 ASSUMPTIONS = [
     "an order 'computes every value before it is read' iff every LHS variable read inside the span was written earlier "
-    "in that order (own-equation exogenized inputs included); pairs failing this are excluded, not judged",
+    "in that order; pairs failing this are excluded (decided by the reference alone), not judged",
     "when_data=False with a missing data point means the variable is exogenized to NaN (asserted only at that cell; "
     "cells the reference says depend on a NaN are not judged)",
     "values outside the simulated span (initial and terminal conditions) are inputs and are read from the input databox",
+    "a missing input residual means 0 (documented fallback)",
 ]
 
 NAN = float("nan")
@@ -409,8 +426,15 @@ def run_case(M, m, case, res, ctx_seed):
     span = START >> (START + T - 1)
     db = None
     outs = {}
-    mkey = M.key()
-    pkey = None if not plan else [plan["entries"], plan.get("present")]
+    ckey = "%s#%r#%s#%d#%d#" % (M.key(), None if not plan else (plan["entries"], plan.get("present")), resmode, nv, prepend)
+    seen = res.__dict__.setdefault("_c17_seen", set())
+
+    def cls_once(name, value):
+        k = (name, repr(value))
+        if k not in seen:
+            seen.add(k)
+            res.cls(name, value)
+    plan_obj = None
     for order in case.get("orders", ORDERS):
         if not M.valid(order):
             res.exclude("order_reads_before_write")
@@ -433,7 +457,9 @@ def run_case(M, m, case, res, ctx_seed):
         try:
             kw = {}
             if plan:
-                kw["plan"] = build_plan(m, M, plan, span)
+                if plan_obj is None:
+                    plan_obj = build_plan(m, M, plan, span)
+                kw["plan"] = plan_obj
             if not prepend:
                 kw["prepend_input"] = False
             out = m.simulate(db, span, execution_order=order, when_simulates_nan="silent", **kw)
@@ -516,14 +542,14 @@ def run_case(M, m, case, res, ctx_seed):
                         bad("residual_unchanged", "%s[%d] = %r on the output, %r on the input" % (eq["res"], t, r, rin), **sig)
                     if not (abs(out_tab[(x, t)] - ref_tab[(x, t)]) <= TOL * scale):
                         bad("reference_path", "%s[%d] = %r, reference simulation %r" % (x, t, out_tab[(x, t)], ref_tab[(x, t)]), **sig)
-            res.cls("cell_pattern", sorted(set(kinds.values())))
+            cls_once("cell_pattern", sorted(set(kinds.values())))
         outs[order] = arrays
-        res.nt([mkey, pkey, resmode, nv, prepend, order])
+        res.nt(engine.short_hash(ckey + order))
         if judged_all:
             res.count("cases_fully_judged")
         for (i, t), (ptr, wd) in cells.items():
-            res.cls("lhs_x_plan_transform", [M.eqs[i]["tr"], ptr, wd])
-    res.cls("order_validity", [M.valid(o) for o in ORDERS])
+            cls_once("lhs_x_plan_transform", [M.eqs[i]["tr"], ptr, wd])
+    cls_once("order_validity", [M.valid(o) for o in ORDERS])
     if len(outs) == 2:
         res.count("pairs_both_orders_compared")
         for name in outs[ORDERS[0]]:
@@ -605,7 +631,7 @@ def model_cases(spec, nvs=(1,)):
         cases.append(dict(plan=None, resmode="nonzero", nv=nv, prepend=True))
         sp = std_plan(spec)
         if sp:
-            cases.append(dict(plan=sp, resmode="std", nv=nv, prepend=True))
+            cases.append(dict(plan=sp, resmode="std", nv=nv, prepend=(nv == 2)))
     return cases
 
 
@@ -669,9 +695,11 @@ def skeletons(quick):
             # x first, feedback from y lagged (only dates_equations is valid)
             out.append(("B1", dict(eqs=[dict(tr=tx, id=False, terms=["lag", "l1", "par", "exo"]),
                                         dict(tr=ty, id=False, terms=["lag", "e0", "par"])]), 0))
-            # x first, no feedback (both orders valid)
-            out.append(("B2", dict(eqs=[dict(tr=tx, id=False, terms=["lag", "par", "exo"]),
-                                        dict(tr=ty, id=False, terms=["lag", "e0"])]), 0))
+            # x first, no feedback (both orders valid); in the quick tier this skeleton is exercised by the
+            # two-variable plans (skeletons_two) only
+            if not quick:
+                out.append(("B2", dict(eqs=[dict(tr=tx, id=False, terms=["lag", "par", "exo"]),
+                                            dict(tr=ty, id=False, terms=["lag", "e0"])]), 0))
             # x second, reads y at 0 (both orders valid)
             out.append(("C", dict(eqs=[dict(tr=ty, id=False, terms=["lag", "exo"]),
                                        dict(tr=tx, id=False, terms=["lag", "e0", "par"])]), 1))
@@ -707,6 +735,29 @@ def plan_cases(j, ptr, wd, nv, prepend, quick):
     return out
 
 
+def plan_cases_two(ptr, wd, nv, prepend):
+    """both variables of a 2-equation skeleton exogenized, each on every non-empty subset of the window"""
+    out = []
+    for d0 in WINDOW_SUBSETS:
+        for d1 in WINDOW_SUBSETS:
+            for resmode in ("zero", "nonzero"):
+                out.append(dict(plan=dict(entries=[[0, d0, ptr, wd], [1, d1, ptr, wd]], present=None),
+                                resmode=resmode, nv=nv, prepend=prepend))
+    return out
+
+
+def skeletons_two(quick):
+    out = []
+    for ix, tx in enumerate(TR):
+        for ty in ([TR[(ix + 2) % 6]] if quick else TR):
+            out.append(("B2x2", dict(eqs=[dict(tr=tx, id=False, terms=["lag", "par", "exo"]),
+                                          dict(tr=ty, id=False, terms=["lag", "e0"])])))
+            if not quick:
+                out.append(("B1x2", dict(eqs=[dict(tr=tx, id=False, terms=["lag", "l1", "par", "exo"]),
+                                              dict(tr=ty, id=False, terms=["lag", "e0", "par"])])))
+    return out
+
+
 # ---------------------------------------------------------------------------
 # shards
 # ---------------------------------------------------------------------------
@@ -734,6 +785,15 @@ def shard_plans(item, res, ctx):
     if ptr == "pct" and wd:
         res.sample({"part": "P", "context": context, "model": M.source(), "exogenized": M.names[j], "plan_transform": ptr,
                     "when_data": wd, "variants": nv, "cases": "%d (date subset x presence subset x residual mode) x orders" % len(cases)})
+
+
+def shard_plans_two(item, res, ctx):
+    context, spec, ptr, wd, nv, prepend = item
+    cases = plan_cases_two(ptr, wd, nv, prepend)
+    M = run_model_cases(spec, cases, res, ctx.seed)
+    if ptr == "diff" and not wd:
+        res.sample({"part": "P2", "context": context, "model": M.source(), "exogenized": list(M.names), "plan_transform": ptr,
+                    "when_data": wd, "variants": nv, "cases": "%d (date subset x date subset x residual mode) x orders" % len(cases)})
 
 
 def run(ctx, total, info):
@@ -768,14 +828,22 @@ def run(ctx, total, info):
                     shards_p.append((context, spec, j, ptr, wd, 1, False))
                 if context == "A2" or (not quick and context in ("A", "B2", "C", "D")):
                     shards_p.append((context, spec, j, ptr, wd, 2, True))
+    shards_p2 = []
+    for context, spec in skeletons_two(quick):
+        for ptr in TR:
+            for wd in ((False,) if quick else (False, True)):
+                shards_p2.append((context, spec, ptr, wd, 1, False))
     engine.run_shards(__name__, "shard_plans", shards_p, ctx, total)
+    engine.run_shards(__name__, "shard_plans_two", shards_p2, ctx, total)
     engine.run_shards(__name__, "shard_models", shards_m, ctx, total)
     c = total.counters
     info["exhaustive"] = True
     info["space"] = {
         "two_equation_models": len(first_specs(not quick)) * len(second_specs(not quick)),
         "single_equation_models": len(singles), "lead_family_models": len(leads), "three_equation_models": len(threes),
-        "plan_skeletons": len(skeletons(quick)), "plan_shards": len(shards_p), "model_shards": len(shards_m),
+        "plan_skeletons": len(skeletons(quick)), "plan_shards": len(shards_p),
+        "two_variable_plan_skeletons": len(skeletons_two(quick)), "two_variable_plan_shards": len(shards_p2),
+        "two_variable_plans_per_skeleton": len(plan_cases_two("none", False, 1, False)) * len(TR) * (1 if quick else 2), "model_shards": len(shards_m),
         "plans_per_skeleton_variable": len(plan_cases(0, "none", False, 1, False, quick)) * 2 * len(TR),
         "simulated_periods": T, "window": list(WINDOW),
     }
@@ -800,8 +868,9 @@ def run(ctx, total, info):
     info["floors"] = {k: (measured[k], required[k]) for k in required}
 
 
-# vacuity floors: about half of what the unchanged tree measures (quick: 51 972 evaluations, 29 424 + 29 424
-# exogenized cells, 249 264 simulated cells, 21 990 order pairs; thorough: see THOROUGH_FLOORS)
+# vacuity floors: 50-60 % of what the unchanged tree measures (quick: 51 540 evaluations, 6 740 models built,
+# 38 184 + 38 184 exogenized cells with zero / non-zero input residual, 17 496 when_data cells without data,
+# 17 496 exogenized-to-missing cells, 249 648 simulated cells, 21 774 order pairs, 14 112 excluded order pairs)
 QUICK_FLOORS = {
     "evaluations": 30000, "distinct_nontrivial": 30000, "models_built": 4000, "cases_fully_judged": 20000,
     "cells_exogenized_zero_input_residual": 15000, "cells_exogenized_nonzero_input_residual": 15000,
@@ -809,12 +878,12 @@ QUICK_FLOORS = {
     "pairs_both_orders_compared": 11000, "lhs_x_plan_transform_x_when_data_classes": 60,
     "order_validity_classes": 3, "excluded_order_pairs": 7000,
 }
-THOROUGH_FLOORS = {
-    "evaluations": 1, "distinct_nontrivial": 1, "models_built": 1, "cases_fully_judged": 1,
-    "cells_exogenized_zero_input_residual": 1, "cells_exogenized_nonzero_input_residual": 1,
-    "cells_skipped_when_data": 1, "cells_exogenized_missing": 1, "cells_simulated": 1,
-    "pairs_both_orders_compared": 1, "lhs_x_plan_transform_x_when_data_classes": 60,
-    "order_validity_classes": 3, "excluded_order_pairs": 1,
+THOROUGH_FLOORS = {     # measured: 914 748 evaluations, 51 524 models, 647 202 + 647 202 exogenized cells, 5 938 860 simulated cells
+    "evaluations": 500000, "distinct_nontrivial": 500000, "models_built": 28000, "cases_fully_judged": 380000,
+    "cells_exogenized_zero_input_residual": 350000, "cells_exogenized_nonzero_input_residual": 350000,
+    "cells_skipped_when_data": 200000, "cells_exogenized_missing": 200000, "cells_simulated": 3200000,
+    "pairs_both_orders_compared": 190000, "lhs_x_plan_transform_x_when_data_classes": 60,
+    "order_validity_classes": 3, "excluded_order_pairs": 180000,
 }
 
 
